@@ -158,7 +158,50 @@ void prop(DP &dp, const ref::Bytes &sched, Ctx &ctx) {
 		o.gen.max_boards = 3;
 		n.prepare(dp, sched, o);
 		ctx.desc << "C12 normal mode " << n.c.summary() << "\n bus: " << n.bus.describe() << "\n";
-		if (n.start(0) != 0) ctx.fail("START: valid configuration rejected");
+		// adversarial interface: while the startup dialogue runs, the bus adds valid and adversarial messages of its own
+		// behind its answers (extra / contradicting table rows, counts, features, notices, stall, malformed frames).
+		// The statement promises memory safety and a live receiver, not that such a start succeeds or even returns:
+		// a start that never finishes within the virtual-time budget ends the case (tagged, not asserted).
+		bool adversary = !ctx.in_process && dp.chance(90);
+		if (adversary) {
+			for (auto &bn : n.bus.nodes) addrs.push_back(bn.addr);
+			unsigned budget_msgs = (unsigned) dp.range(1, 25);
+			Gen *gp = new Gen{dp, addrs, ctx};
+			unsigned *left = new unsigned(budget_msgs);
+			n.bus.after_request = [&n, gp, left, &ctx](const ref::Msg &) {
+				if (*left == 0 || !gp->dp.more() || !gp->dp.chance(70)) return;
+				(*left)--;
+				ref::Bytes pl;
+				std::string cls = "valid";
+				if (gp->dp.chance(150)) {
+					ref::Msg m = gp->valid_msg();
+					static const uint8_t ST[] = {M::NODETAB, M::NODETAB_COUNT, M::FEATURE, M::FEATURE_COUNT, M::SYS_MAGIC, M::NODE_NEW, M::NODE_LOST, M::NODE_NA, M::FEATURE_NA, M::STALL, M::PKT_CAPACITY};
+					if (gp->dp.chance(200)) { m.type = ST[gp->dp.pick(sizeof ST)]; m.data = traffic::valid_payload(gp->dp, m.type); }
+					pl = ref::encode_msg(m);
+				} else pl = gp->adversarial(cls);
+				ctx.desc << "  (during startup) " << cls << " " << hex(pl) << "\n";
+				ctx.tag("startup-adversary:" + cls);
+				n.s.inject(ref::frame(pl));
+			};
+			vf_set_time_cap(vf_now_us() + 120ULL * 1000000ULL);
+			hang_is_inconclusive(true);
+		}
+		int src = n.start(0);
+		n.bus.after_request = nullptr;
+		if (adversary) {
+			hang_is_inconclusive(false);
+			vf_set_time_cap(900ULL * 1000000ULL);
+			addrs.clear();
+			if (src != 0) {
+				// the start gave up: the library must be stopped cleanly and restartable is C13's business; nothing more to probe here
+				std::string an = lifecycle_anomalies(true);
+				if (!an.empty()) ctx.fail("LIFECYCLE after a start that an adversarial interface made fail: " + an);
+				ctx.tag("startup-adversary-start-failed");
+				ctx.nontrivial = true;
+				ctx.hash_src = ctx.desc.str();
+				return;
+			}
+		} else if (src != 0) ctx.fail("START: valid configuration rejected");
 		s.settle();
 		n.bus.silent = true;
 		for (auto &bn : n.bus.nodes) addrs.push_back(bn.addr);
